@@ -147,18 +147,28 @@ class _Failed:
 
 
 def safe_apply(step, doc):
-    """stub-side application: a ValueError-family error is a failed application"""
+    """stub-side application: any exception is a failed application for the stub (the apply seam
+    has already judged it if it is C01's business)"""
     try:
         return step.apply(doc)
-    except ValueError:
+    except Exception:  # noqa: BLE001
         return _Failed()
 
 
 def safe_maybe_step(tr, step):
     try:
         return tr.maybe_step(step)
-    except ValueError:
+    except Exception:  # noqa: BLE001
         return _Failed()
+
+
+def safe_map(sim, step, mapping):
+    """Step.map in the stub: an exception means 'could not be rebased' for the stub"""
+    try:
+        return step.map(mapping)
+    except Exception as e:  # noqa: BLE001
+        sim.stats["map_raised:" + type(e).__name__] += 1
+        return None
 
 
 def safe_invert(sim, step, doc):
@@ -628,7 +638,7 @@ class Client(Party):
                 sl = work.slice(it["idx"] + 1)
                 sim.mon.on_mapping_used(self, sl, rwork.slice(it["idx"] + 1) if rwork else None,
                                         "undo.remap", tr.doc if it["idx"] + 1 == len(h.maps) else None)
-                mapped = it["inv"].map(sl)
+                mapped = safe_map(sim, it["inv"], sl)
                 sim.stats["undo.mapped" if mapped else "undo.dropped"] += 1
                 if mapped is None:
                     continue
@@ -819,7 +829,11 @@ class Client(Party):
         for reb in self.unconfirmed:
             if new and not new[-1].sent and not reb.sent:
                 prev = new[-1]
-                m = prev.step.merge(reb.step)
+                try:
+                    m = prev.step.merge(reb.step)
+                except Exception as e:  # noqa: BLE001
+                    sim.mon.on_merge_raised(prev.step, reb.step, e)
+                    m = None
                 minv = safe_invert(sim, m, prev.doc_before) if m is not None else None
                 if m is not None and minv is not None:
                     sim.mon.on_merge(self, prev.step, reb.step, m, prev.doc_before, reb.doc_after,
@@ -975,7 +989,7 @@ class Client(Party):
         judged_pairs = []
         for i, r in enumerate(rest):
             sl = tr.mapping.slice(map_from)
-            mapped = r.step.map(sl)
+            mapped = safe_map(sim, r.step, sl)
             map_from -= 1
             applied = False
             if mapped is not None:
